@@ -181,6 +181,17 @@ def corpus():
             p.update(flags=fl, t=5, src=("DTN", 1, name))
             out.append(_line(dict(p=p, cs=[dict(type=10, num=2, flags=bfl, crc=("N",), data=("HOP", 9, 1)),
                                            dict(type=1, num=1, flags=bfl & 0x02, crc=("N",), data=("DATA", b"x"))])))
+    # B, then A 255 / 65535 times, then B again, where B carries block numbers A does not have (and the other way round): what validate
+    # remembers about block numbers or types of one bundle must not leak into a later call, however many calls later
+    def _nb(nums):
+        p = genb.rnd_primary(rng, crc_kind=0, fragment=False)
+        p.update(flags=0, t=5, src=("DTN", 1, b"//n/a"))
+        return _line(dict(p=p, cs=[dict(type=192 + k, num=n, flags=0, crc=("N",), data=("UNK", b"\x01")) for k, n in enumerate(nums)] +
+                                  [dict(type=1, num=1, flags=0, crc=("N",), data=("DATA", b"x"))]))
+    la, lb = _nb([]), _nb([2, 3, 63, 64, 1000])
+    for a, b in ((la, lb), (lb, la)):
+        for n in (255, 65535):
+            out.append("PAIR %s || REPEAT %d %s || %s" % (b, n, a, b))
     for t in (257, 65537):                                         # "payload" alias does not make a payload block
         p = genb.rnd_primary(rng, crc_kind=0, fragment=False)
         p.update(flags=0, t=5, src=("DTN", 1, b"//n/a"))
